@@ -287,7 +287,13 @@ macro_rules! gglwe_like {
 }
 
 gglwe_like!(GLWESwitchingKey<Vec<u8>>, "GLWESwitchingKey", |p| GLWESwitchingKey::alloc(p.n(), p.b(), p.k(), Rank(p.rank as u32), Rank(p.rank_out as u32), Dnum(p.dnum as u32), Dsize(p.dsize as u32)));
-gglwe_like!(GLWEAutomorphismKey<Vec<u8>>, "GLWEAutomorphismKey", |p| GLWEAutomorphismKey::alloc(p.n(), p.b(), p.k(), Rank(p.rank as u32), Dnum(p.dnum as u32), Dsize(p.dsize as u32)));
+// (automorphism keys carry a Galois element: a negative odd value derived from the parameters, so that its transport is observable)
+gglwe_like!(GLWEAutomorphismKey<Vec<u8>>, "GLWEAutomorphismKey", |p| {
+    use poulpy_core::layouts::SetGaloisElement;
+    let mut k = GLWEAutomorphismKey::alloc(p.n(), p.b(), p.k(), Rank(p.rank as u32), Dnum(p.dnum as u32), Dsize(p.dsize as u32));
+    k.set_p(-(2 * (p.n_lwe as i64 + p.krem as i64) + 1));
+    k
+});
 gglwe_like!(GLWETensorKey<Vec<u8>>, "GLWETensorKey", |p| GLWETensorKey::alloc(p.n(), p.b(), p.k(), Rank(p.rank as u32), Dnum(p.dnum as u32), Dsize(p.dsize as u32)));
 gglwe_like!(GGLWEToGGSWKey<Vec<u8>>, "GGLWEToGGSWKey", |p| GGLWEToGGSWKey::alloc(p.n(), p.b(), p.k(), Rank(p.rank as u32), Dnum(p.dnum as u32), Dsize(p.dsize as u32)));
 gglwe_like!(GLWEToLWEKey<Vec<u8>>, "GLWEToLWEKey", |p| GLWEToLWEKey::alloc(p.n(), p.b(), p.k(), Rank(p.rank as u32), Dnum(p.dnum as u32)));
@@ -295,7 +301,12 @@ gglwe_like!(LWEToGLWEKey<Vec<u8>>, "LWEToGLWEKey", |p| LWEToGLWEKey::alloc(p.n()
 gglwe_like!(LWESwitchingKey<Vec<u8>>, "LWESwitchingKey", |p| LWESwitchingKey::alloc(p.n(), p.b(), p.k(), Dnum(p.dnum as u32)));
 gglwe_like!(GGLWECompressed<Vec<u8>>, "GGLWECompressed", |p| GGLWECompressed::alloc(p.n(), p.b(), p.k(), Rank(p.rank as u32), Rank(p.rank_out as u32), Dnum(p.dnum as u32), Dsize(p.dsize as u32)));
 gglwe_like!(GLWESwitchingKeyCompressed<Vec<u8>>, "GLWESwitchingKeyCompressed", |p| GLWESwitchingKeyCompressed::alloc(p.n(), p.b(), p.k(), Rank(p.rank as u32), Rank(p.rank_out as u32), Dnum(p.dnum as u32), Dsize(p.dsize as u32)));
-gglwe_like!(GLWEAutomorphismKeyCompressed<Vec<u8>>, "GLWEAutomorphismKeyCompressed", |p| GLWEAutomorphismKeyCompressed::alloc(p.n(), p.b(), p.k(), Rank(p.rank as u32), Dnum(p.dnum as u32), Dsize(p.dsize as u32)));
+gglwe_like!(GLWEAutomorphismKeyCompressed<Vec<u8>>, "GLWEAutomorphismKeyCompressed", |p| {
+    use poulpy_core::layouts::SetGaloisElement;
+    let mut k = GLWEAutomorphismKeyCompressed::alloc(p.n(), p.b(), p.k(), Rank(p.rank as u32), Dnum(p.dnum as u32), Dsize(p.dsize as u32));
+    k.set_p(-(2 * (p.n_lwe as i64 + p.krem as i64) + 1));
+    k
+});
 gglwe_like!(GLWETensorKeyCompressed<Vec<u8>>, "GLWETensorKeyCompressed", |p| GLWETensorKeyCompressed::alloc(p.n(), p.b(), p.k(), Rank(p.rank as u32), Dnum(p.dnum as u32), Dsize(p.dsize as u32)));
 gglwe_like!(GGLWEToGGSWKeyCompressed<Vec<u8>>, "GGLWEToGGSWKeyCompressed", |p| GGLWEToGGSWKeyCompressed::alloc(p.n(), p.b(), p.k(), Rank(p.rank as u32), Dnum(p.dnum as u32), Dsize(p.dsize as u32)));
 gglwe_like!(GLWEToLWESwitchingKeyCompressed<Vec<u8>>, "GLWEToLWEKeyCompressed", |p| GLWEToLWESwitchingKeyCompressed::alloc(p.n(), p.b(), p.k(), Rank(p.rank as u32), Dnum(p.dnum as u32)));
